@@ -49,7 +49,9 @@ def _seq(draw):
 
 @st.composite
 def _txt(draw):
-    names = [draw(st.sampled_from(NAMES)) for _ in range(draw(st.integers(1, 30)))]
+    # residue names are taken as spelled: some files hold names with lower-case letters
+    pool = NAMES + ["Na", "cap", "Glc"] if draw(st.integers(0, 2)) == 0 else NAMES
+    names = [draw(st.sampled_from(pool)) for _ in range(draw(st.integers(1, 30)))]
     lines = _break(draw, names, " ")
     if draw(st.integers(0, 2)) == 0:
         # blanks at the ends of lines (a space before the line break, an indented continuation line)
